@@ -518,14 +518,15 @@ theorem intra_edge_source (m : MolIn) (ps : List Placement) (r : Result) (h : as
 /-! ## the matcher: reference answer -/
 
 /-- `placements_exact`: the reference matcher returns exactly the maps of the nodes of `block_from`
-into the molecule that are injective, satisfy `_old_atomname_match` on every node, and map bonds to
+into the molecule that are injective, satisfy `_old_atomname_match` on every node (and map a node
+with a self-loop to a node with a self-loop and vice versa: `nodePred`), and map bonds to
 bonds and non-bonds to non-bonds (induced) with agreeing "both ends in the same residue" flag
 (`edge_matcher`); each once.  The code's matcher (networkx VF2) is compared with it as a set. -/
 theorem placements_exact (mol : List MNode) (medges : List (Int × Int)) (pat : List MNode)
     (pedges : List (Int × Int)) (hp : (pat.map (·.key)).Nodup) (hm : (mol.map (·.key)).Nodup) :
     (∀ f, f ∈ refMatches mol medges pat pedges ↔
         f.map Prod.fst = pat.map (·.key)
-        ∧ Iso.IsIndIsoP (toGraph mol medges) (toGraph pat pedges) (nodePred mol pat) (Iso.Map.toFun f))
+        ∧ Iso.IsIndIsoP (toGraph mol medges) (toGraph pat pedges) (nodePred mol medges pat pedges) (Iso.Map.toFun f))
     ∧ (refMatches mol medges pat pedges).Nodup := by
   have hk : (toGraph pat pedges).keys = pat.map (·.key) := by simp [toGraph, Iso.Graph.keys]
   have hk2 : (toGraph mol medges).keys = mol.map (·.key) := by simp [toGraph, Iso.Graph.keys]
@@ -533,6 +534,16 @@ theorem placements_exact (mol : List MNode) (medges : List (Int × Int)) (pat : 
   intro f
   unfold refMatches
   rw [Iso.mem_allIsosP_iff _ _ _ (by rw [hk]; exact hp), hk]
+
+/-- `edge_matcher` on a self-loop compares a resid with itself: it never objects (so the `return
+False` under `if neighbor == G1_node` in `semantic_feasibility` is unreachable for resids that are
+equal to themselves; a loop is matched by a loop, `nodePred`) -/
+theorem self_loop_same_residue (ns : List MNode) (u : Int) (h : (ns.find? (fun n => n.key == u)).isSome = true) :
+    sameRes ns u u = 1 := by
+  unfold sameRes
+  cases hf : ns.find? (fun n => n.key == u) with
+  | none => rw [hf] at h; cases h
+  | some a => simp
 
 /-! ## non-vacuity: a concrete instance (sparse keys, a spawned particle, a half weight, an overlap) -/
 
